@@ -79,3 +79,4 @@ package shrex
 //@   havoc $RespRead
 //@   callpre Client).doRequest: $arg3 == req && $arg4 == resp && $arg5 == peer
 //@   ensures err == nil ==> $RespRead
+
